@@ -285,17 +285,16 @@ class EList(ECollection, list):
 
     def extend(self, sublist):
         check = self.check
+        sublist = list(sublist)
+        for value in sublist:
+            check(value)
         if self.is_ref:
             _update_container = self._update_container
             _update_opposite = self._update_opposite
             owner = self.owner
             for value in sublist:
-                check(value)
                 _update_container(value)
                 _update_opposite(value, owner)
-        else:
-            for value in sublist:
-                check(value)
 
         super().extend(sublist)
         self.owner.notify(Notification(new=sublist,
@@ -377,15 +376,16 @@ class EAbstractSet(ECollection):
     def update(self, others):
         check = self.check
         add = super().add
+        others = list(others)
+        for value in others:
+            check(value)
         if self.is_ref:
             for value in others:
-                check(value)
                 add(value)
                 self._update_container(value)
                 self._update_opposite(value, self.owner)
         else:
             for value in others:
-                check(value)
                 add(value)
         self.owner._isset[self.feature] = None
         self.owner.notify(Notification(new=others,
